@@ -43,14 +43,25 @@ pub fn build_ruleset_with(env: &J, rules: Vec<Rule>) -> Result<Built, String> {
     if let Some(ss) = env["syms"].as_array() {
         // every name is first registered with a stale value through with_symbol, then the real table through ONE
         // with_symbols call: a symbol resolves to the value most recently registered under its name (C10, C15)
+        // (both orders: even positions stale by with_symbol then real by with_symbols, odd positions stale in the
+        // with_symbols table and real by a later with_symbol)
         let mut table: Vec<(String, Value)> = Vec::new();
-        for s in ss.iter() {
+        let mut later: Vec<(String, Value)> = Vec::new();
+        for (i, s) in ss.iter().enumerate() {
             let name = uncps(&s[0])?;
-            b = b.with_symbol(name.clone(), Value::String("stale".into()));
-            table.push((name, from_model(&s[1])?));
+            if i % 2 == 0 {
+                b = b.with_symbol(name.clone(), Value::String("stale".into()));
+                table.push((name, from_model(&s[1])?));
+            } else {
+                table.push((name.clone(), Value::String("stale".into())));
+                later.push((name, from_model(&s[1])?));
+            }
         }
         if !table.is_empty() {
             b = b.with_symbols(Symbols::from(table)).map_err(|e| format!("with_symbols: {e}"))?;
+        }
+        for (n, v) in later {
+            b = b.with_symbol(n, v);
         }
     }
     Ok(Built { ruleset: b.build(), log })
